@@ -264,11 +264,18 @@ def _optimise_operator(op):
     if isinstance(op, _OpChain):
         op._domain = op._ops[-1].domain
 
-    # Insert trees before leaves
-    for key in key_list_subtrees:
-        op = op.partial_insert(same_subtrees[key][1].adjoint(same_subtrees[key][0]))
-    for key in reversed(key_list_op):
-        op = op.partial_insert(same_op[key][1].adjoint(same_op[key][0]))
+    # Insert trees before leaves. A cut-out subtree may itself contain the
+    # placeholder of another one (nested shared subtrees), therefore insert
+    # until no placeholder is left in the domain.
+    todo = [same_subtrees[key] for key in key_list_subtrees]
+    todo += [same_op[key] for key in reversed(key_list_op)]
+    inserted = True
+    while inserted:
+        inserted = False
+        for subtree, placeholder in todo:
+            if placeholder.domain.keys()[0] in op.domain.keys():
+                op = op.partial_insert(placeholder.adjoint(subtree))
+                inserted = True
     return op
 
 
